@@ -127,20 +127,47 @@ def fresh(ctx):
                             ('run_derived_attribute', 'DerivedAttributeWalker')):
         fn = repo.func(INT + fn_name)
         Q = INT + fn_name
-        wv = None
-        for st in body_without_doc(fn):
-            m = pm.match('_W = %s(__, __)' % walker, st) or pm.match('_W = %s(__, __, __)' % walker, st)
-            if m:
-                wv = m['_W'].id
-        r.check(wv is not None, '%s creates a new %s per call' % (fn_name, walker), fn, construct=Q, key='new-walker',
+        from .. import absint as _ai2
+        glob = [n for n in ast.walk(fn) if isinstance(n, (ast.Global, ast.Nonlocal))]
+        if glob:
+            r.violation('%s keeps state across invocations (`%s`): every invocation must evaluate its action with a walker of its own'
+                        % (fn_name, src(glob[0])), glob[0], construct=Q, key='new-walker')
+            continue
+
+        def new_walker(e, s, tr, walker=walker):
+            if dotted(e['_C'].func) != walker:
+                return False
+            s.setdefault('env', {})[e['_W'].id] = 'walker'
+            tr.append('new')
+            return True
+
+        def accept(e, s, tr):
+            w = e['_W']
+            if not (isinstance(w, ast.Name) and s.get('env', {}).get(w.id) == 'walker'):
+                return False
+            tr.append(('accept', src(e['_R'])))
+            return True
+
+        def parsed(e, s, tr):
+            s.setdefault('senv', {})[e['_R'].id] = e['_V']
+            return True
+        ri = _ai2.Interp(fn, [], [('_W = _C', lambda e, s, tr: new_walker(e, s, tr) if isinstance(e['_C'], ast.Call) else False),
+                                  ('_W.accept(_R)', accept)])
+        ri.pure_calls = {'parse'}
+        st_ = {}
+        out, tr = ri.run(st_)
+        news = [t for t in tr if t == 'new']
+        r.check(len(news) == 1, '%s creates a new %s per call' % (fn_name, walker), fn, construct=Q, key='new-walker',
                 msg='%s does not construct a fresh %s in its body' % (fn_name, walker))
-        if wv:
-            ok = pm.contains('_R = oal.parse(action, label)', fn) or pm.contains('_R = oal.parse(action)', fn)
-            r.check(ok, '%s parses the action text of this element' % fn_name, fn, construct=Q, key='parses',
-                    msg='%s does not parse its `action` argument' % fn_name)
-            last = body_without_doc(fn)[-1]
-            r.check(pm.match('return %s.return_value' % wv, last) is not None, '%s returns the walker\'s return_value' % fn_name, fn,
-                    construct=Q, key='returns', msg='%s does not return %s.return_value' % (fn_name, wv))
+        acc = [t[1] for t in tr if isinstance(t, tuple) and t[0] == 'accept']
+        ok = acc in (['oal.parse(action, label)'], ['oal.parse(action)'], ["oal.parse(action, label=label)"])
+        r.check(ok, '%s parses the action text of this element' % fn_name, fn, construct=Q, key='parses',
+                msg='%s does not parse its `action` argument (it evaluates %s)' % (fn_name, acc))
+        wnames = [k for k, v in st_.get('env', {}).items() if v == 'walker']
+        okr = out.kind == 'return' and out.value is not None and isinstance(out.value, ast.Attribute) and out.value.attr == 'return_value' and \
+            isinstance(out.value.value, ast.Name) and out.value.value.id in wnames
+        r.check(okr, '%s returns the walker\'s return_value' % fn_name, fn, construct=Q, key='returns',
+                msg='%s does not return %s.return_value' % (fn_name, walker))
     aw = repo.cls(INT + 'ActionWalker')
     init = repo.methods(aw)['__init__']
     r.check(pm.contains('self.symtab = SymbolTable(_D)', init), 'every walker gets its own SymbolTable', init,
@@ -170,14 +197,22 @@ def fresh(ctx):
                         construct='bridgepoint.interpret', key='module-state ' + src(st.targets[0]))
     # derived attributes are plain properties
     fn = repo.func(OOA + 'mk_derived_attribute')
+    from .common import resolve_locals
     ok = False
     for n in ast.walk(fn):
-        if isinstance(n, ast.Return) and n.value is not None and pm.match('property(_F)', n.value) is not None:
-            fv = src(pm.match('property(_F)', n.value)['_F'])
-            for st in body_without_doc(fn):
-                m = pm.match('%s = functools.partial(interpret.run_derived_attribute, _A, _B, _C, _D)' % fv, st)
-                if m:
-                    ok = True
+        if isinstance(n, ast.Return) and n.value is not None:
+            m0 = pm.match('property(_F)', n.value)
+            if m0 is None:
+                continue
+            getter = resolve_locals(fn, m0['_F'], pure_only=False)
+            # the getter runs the interpreter on every read: partial(run_derived_attribute, metaclass, label, action, name) or
+            # the equivalent lambda over the reading instance
+            if pm.match('functools.partial(interpret.run_derived_attribute, _A, _B, _C, _D)', getter) is not None or \
+                    pm.match('partial(interpret.run_derived_attribute, _A, _B, _C, _D)', getter) is not None:
+                ok = True
+            elif isinstance(getter, ast.Lambda) and len(getter.args.args) == 1:
+                ip = getter.args.args[0].arg
+                ok = pm.match('interpret.run_derived_attribute(_A, _B, _C, _D, %s)' % ip, getter.body) is not None
     r.check(ok, 'a derived attribute is a property whose getter runs the action on every read', fn, construct=OOA + 'mk_derived_attribute',
             key='property', msg='mk_derived_attribute does not return property(partial(run_derived_attribute, ...)): reads may be cached')
 
@@ -278,10 +313,13 @@ def bind(ctx):
             key='receiver', msg='mk_operation does not pass the receiving instance for instance-based operations and None for class-based ones')
     for fn_name, src_var in (('mk_function', 's_sync'), ('mk_bridge', 's_brg')):
         fn = repo.func(OOA + fn_name)
-        ok = pm.contains('_A = %s.Action_Semantics_internal' % src_var, fn) and pm.contains('_L = %s.Name' % src_var, fn)
+        from .common import resolve_locals as _rl
         lam = [n for n in ast.walk(fn) if isinstance(n, ast.Lambda)]
-        ok = ok and len(lam) == 1 and lam[0].args.kwarg is not None and \
-            pm.match('interpret.run_function(metamodel, label, action, kwargs)', lam[0].body) is not None
+        ok = len(lam) == 1 and lam[0].args.kwarg is not None
+        if ok:
+            body = _rl(fn, lam[0].body)
+            ok = pm.match('interpret.run_function(metamodel, %s.Name, %s.Action_Semantics_internal, %s)' % (src_var, src_var, lam[0].args.kwarg.arg),
+                          body) is not None
         r.check(ok, '%s returns a keyword-only callable running the element\'s own action' % fn_name, fn, construct=OOA + fn_name, key='closure',
                 msg='%s does not return `lambda **kwargs: interpret.run_function(metamodel, label, action, kwargs)` for its own action text' % fn_name)
     me = repo.func(OOA + 'mk_external_entity')
@@ -329,7 +367,25 @@ def bind(ctx):
     # Domain symbols
     fs = repo.func(OOA + 'Domain.find_symbol')
     p = param_names(fs)[0]
-    ok = pm.contains('if %s in self.symbols:\n    return self.symbols[%s]' % (p, p), fs) and pm.contains('self.find_class(%s)' % p, fs)
+    from .. import absint as _ai
+
+    def find_class(e, s, tr):
+        tr.append('find_class')
+        if not s['cls']:
+            raise _ai.Raised('UnknownClassException')
+        return True
+    fi = _ai.Interp(fs, [('%s in self.symbols' % p, lambda e, s, tr: s['sym']), ('%s not in self.symbols' % p, lambda e, s, tr: not s['sym'])],
+                    [('self.find_class(%s)' % p, find_class), ('_V = self.find_class(%s)' % p, find_class)])
+    ok = True
+    for sym, cls_ in ((True, True), (True, False), (False, True), (False, False)):
+        out, tr = fi.run({'sym': sym, 'cls': cls_})
+        if sym:
+            ok = ok and out.kind == 'return' and out.value is not None and pm.match('self.symbols[%s]' % p, out.value) is not None
+        elif cls_:
+            ok = ok and out.kind == 'return' and out.value is not None and (pm.match('self.find_class(%s)' % p, out.value) is not None or
+                                                                            isinstance(out.value, ast.Name))
+        else:
+            ok = ok and out.kind == 'raise' and exception_class_name(out.node) == 'OoaOfOoaException' if out.node is not None else False
     r.check(ok, 'Domain.find_symbol: registered symbols first, then classes', fs, construct=OOA + 'Domain.find_symbol', key='lookup',
             msg='Domain.find_symbol does not look up self.symbols[name] and fall back to find_class(name)')
     ads = repo.func(OOA + 'Domain.add_symbol')
@@ -368,8 +424,19 @@ def return_rule(ctx):
     for q, n in writers:
         r.check(q == 'ActionWalker.accept_ReturnNode', '%s writes return_value' % q, n, construct=INT + q, key='writer',
                 msg='%s assigns return_value; only accept_ReturnNode may' % q)
+    allowed_readers = {'run_function', 'run_operation', 'run_derived_attribute'}
+    mod_int = repo.module('bridgepoint.interpret')
+    for q, n in list(readers):
+        if q not in allowed_readers and '.' not in q and repo.is_helper(INT + q):
+            callers = set()
+            for f2 in ast.walk(mod_int.tree):
+                if isinstance(f2, ast.FunctionDef) and any(isinstance(c, ast.Call) and call_attr(c) == q for c in ast.walk(f2)) and f2.name != q:
+                    callers.add(f2.name)
+            if callers <= allowed_readers:
+                readers.remove((q, n))
+                r.ok('%s (helper of %s) reads return_value' % (q, sorted(callers)), n, construct=INT + q)
     for q, n in readers:
-        r.check(q in ('run_function', 'run_operation', 'run_derived_attribute'), '%s reads return_value' % q, n, construct=INT + q, key='reader',
+        r.check(q in allowed_readers, '%s reads return_value' % q, n, construct=INT + q, key='reader',
                 msg='%s reads return_value; only the run_* entry points may' % q)
     # class default None on each walker, so that "no return executed" delivers nothing
     for walker in ('ActionWalker', 'FunctionWalker', 'OperationWalker', 'DerivedAttributeWalker'):
